@@ -347,6 +347,59 @@ fn check_repeated_subexpression(ctx: &Ctx) {
     }
 }
 
+/// (iv-c) abstraction of one of two *different* sub-expressions, which changes the order in which the
+/// two values are created: `C[E1, E2]` against `t = E2 ; C[E1, t]`, `t = E1 ; C[t, E2]` and both. A value
+/// must not depend on what was allocated before it (interning, slot reuse, caches keyed too coarsely).
+fn check_order_abstraction(ctx: &Ctx) {
+    let es = [
+        "\"\u{e9}\"", "\"\u{e8}\"", "\"\u{fc}\"", "\"a\"", "\"b\"", "\"\"", "\"\u{65e5}\"", "\"\u{672c}\"", "\"\u{1f600}\"", "\"\u{1f601}\"", "\"ab\"", "\"\u{e9}\u{e8}\"", "[1]", "[2]", "[]", "{a: 1}", "{a: 2}", "{}", "1.5", "0", "(-0)",
+        "null", "true", "(x => x)", "(x => x + 1)", "\"a\u{e9}\u{e8}b\"[1]", "\"a\u{e9}\u{e8}b\"[2]", "[...\"\u{e8}\u{e9}\"][0]", "split(\"\u{e9},\u{e8}\", \",\")[1]",
+    ];
+    let contexts = ["[H1, H2]", "[H1 .== H2, H1, H2]", "{p: H1, q: H2}", "to_string(H1) + to_string(H2)", "[[H1], [H2, H1]]", "[typeof(H1), H2, H1]", "unique([H1, H2, H1])"];
+    let mut jobs: Vec<(String, Vec<String>)> = vec![];
+    for e1 in es {
+        for e2 in es {
+            if e1 == e2 {
+                continue;
+            }
+            for c in contexts {
+                let inline = c.replace("H1", e1).replace("H2", e2);
+                let variants = vec![
+                    format!("t = {}\n{}", e2, c.replace("H1", e1).replace("H2", "t")),
+                    format!("t = {}\n{}", e1, c.replace("H1", "t").replace("H2", e2)),
+                    format!("t2 = {}\nt1 = {}\n{}", e2, e1, c.replace("H1", "t1").replace("H2", "t2")),
+                ];
+                jobs.push((inline, variants));
+            }
+        }
+    }
+    let outs: Vec<(Outcome, Vec<Outcome>)> = par_map(&jobs, |(inline, variants)| {
+        let run = |src: &str| {
+            let mut s = Session::new();
+            s.sv_mode = true;
+            s.run(src)
+        };
+        (run(inline), variants.iter().map(|v| run(v)).collect())
+    });
+    for ((inline, variants), (a, bs)) in jobs.iter().zip(outs.iter()) {
+        ctx.count(1 + variants.len());
+        ctx.nontrivial(inline);
+        ctx.outcome(if a.is_ok() { "order-abstraction-ok" } else { "order-abstraction-fails" });
+        for (v, b) in variants.iter().zip(bs.iter()) {
+            if a.cmp_key() != b.cmp_key() {
+                ctx.violation(Violation {
+                    kind: "let-abstraction".into(),
+                    class: "evaluation-order".into(),
+                    input: format!("{}  ==>  {}", inline, v.replace('\n', " ; ")),
+                    expected: a.cmp_key(),
+                    observed: b.cmp_key(),
+                    case: json!({"inline": inline, "abstracted": v}),
+                });
+            }
+        }
+    }
+}
+
 /// Every script over the logged choice points with at most `max_dev` non-default answers.
 fn deviation_scripts(log: &[(usize, usize)], max_dev: usize) -> Vec<Vec<usize>> {
     let mut out: Vec<Vec<usize>> = vec![];
@@ -532,6 +585,7 @@ pub fn run(ctx: &Ctx, replay: Option<&J>) -> i32 {
     ctx.set("expressions", json!(exprs.len()));
     par_for_ctx(ctx, exprs.len(), |i| check_expression(ctx, &exprs[i]));
     check_repeated_subexpression(ctx);
+    check_order_abstraction(ctx);
     // ---- (v) the real binary, fresh processes (repetition, not the deciding step)
     let reps = if thorough { 8 } else { 3 };
     let cli: Vec<Vec<String>> = par_map(&progs, |p| {
@@ -560,7 +614,7 @@ pub fn run(ctx: &Ctx, replay: Option<&J>) -> i32 {
     finish(
         ctx,
         "model_checking",
-        "states = histories of <= 2 earlier programs (35-program alphabet) and iteration-order answer scripts with <= 2 deviations at the choice points each program reaches (H1 seam: captured scopes and environments); transitions = one whole-program evaluation in a fresh session, observed as status + outputs JSON + all bindings and compared with the empty-history / default-order run; plus every generated expression (every kind, parent x child spines over shared list / record / string / function / number leaves, built-ins applied to shared values) evaluated twice with all earlier bindings re-checked, let-abstraction of every assignment-free sub-expression, and abstraction of a repeated sub-expression (15 values incl. NaN-carrying containers x 38 two-/three-hole contexts: the occurrences become one heap object); the real binary repeated in fresh processes; distinct = histories, (program, script) pairs and expressions",
+        "states = histories of <= 2 earlier programs (35-program alphabet) and iteration-order answer scripts with <= 2 deviations at the choice points each program reaches (H1 seam: captured scopes and environments); transitions = one whole-program evaluation in a fresh session, observed as status + outputs JSON + all bindings and compared with the empty-history / default-order run; plus every generated expression (every kind, parent x child spines over shared list / record / string / function / number leaves, built-ins applied to shared values) evaluated twice with all earlier bindings re-checked, let-abstraction of every assignment-free sub-expression, and abstraction of a repeated sub-expression (15 values incl. NaN-carrying containers x 38 two-/three-hole contexts: the occurrences become one heap object) and of one of two different sub-expressions (29 values incl. one-character strings sharing a UTF-8 lead byte x 7 contexts x 3 orders of creation); the real binary repeated in fresh processes; distinct = histories, (program, script) pairs and expressions",
         true,
         Some((states, transitions, transitions)),
     )
